@@ -80,6 +80,8 @@ def collect(name, out, user_dir):
             continue
         sdefs.append({"ev": "DefineStruct", "x": {"name": k.lower(), "fields": B.struct_layout(v, structs, enums)}})
     tdefs = [{"ev": "BindType", "x": {"name": t["name"].lower(), "fields": t["fields"]}} for t in types]
+    known_types = {t["name"].lower() for t in types}
+    known_structs = {k.lower() for k, v in structs.items() if v and not k.startswith("__")}
     traces = []
     for b in binds:
         ev = list(sdefs) + list(tdefs)
@@ -88,8 +90,15 @@ def collect(name, out, user_dir):
             ev.append({"ev": "Define", "x": c})
         ev.append({"ev": "Bind", "x": {"fname": b["fname"], "cname": b["cname"], "args": b["args"], "result": b["result"]}})
         unknown = [a["cls"] for a in b["args"] + [b["result"]] if a["cls"].startswith("unknown")]
+        # a derived type that comes from the module of another, imported library
+        unknown += ["unknown-type:" + a["tname"] for a in b["args"] + [b["result"]]
+                    if a["cls"] == "type" and a["tname"] not in known_types]
         if c is not None:
             unknown += [p["cls"] for p in c["params"] + [c["result"]] if p["cls"].startswith("unknown")]
+            # a type name that none of the files read defines (a struct or typedef of another, imported library
+            # or of the user's own headers): its layout is not known here, the pair cannot be judged
+            unknown += ["unknown-type:" + p["sname"] for p in c["params"] + [c["result"]]
+                        if p["cls"] == "struct" and p["sname"] not in known_structs]
         traces.append({"kind": "bind", "events": ev, "tname": "", "sname": "", "label": "%s:%s:%s" % (name, b["file"], b["fname"]),
                        "unknown": unknown, "defined": c is not None, "cname": b["cname"]})
     snames = {k.lower() for k, v in structs.items() if v and not k.startswith("__")}
